@@ -5,6 +5,7 @@
   as a post-condition on the tree each function returns.
 -/
 import SoyVerif.Lemmas.ParserSafe
+import SoyVerif.Model.FileParser
 
 namespace SoyVerif.Lemmas.ParserSafe
 open SoyVerif SoyVerif.Model SoyVerif.Model.Parser
@@ -55,5 +56,45 @@ theorem posOK_of {S : Item → Prop} {it : Item} (h : S it) : PosOK S it.pos := 
 theorem PosOK.mono {S T : Item → Prop} (h : ∀ it, S it → T it) {p : Nat} (hp : PosOK S p) : PosOK T p := by
   obtain ⟨it, hs, he⟩ := hp
   exact ⟨it, h it hs, he⟩
+
+open SoyVerif.Model.FileParser in
+mutual
+  /-- `setPos(node, p)`: every node of the moved tree is positioned at `p` -/
+  theorem EP_reposition {S : Item → Prop} {p : Nat} (hp : PosOK S p) : ∀ e : Expr, EP S (reposition p e)
+    | .null _ | .bool _ _ | .int _ _ | .float _ _ | .str _ _ _ | .global _ _ => by simp only [reposition, EP]; exact hp
+    | .func _ _ args => by simp only [reposition, EP]; exact ⟨hp, EPs_reposition hp args⟩
+    | .list _ items => by simp only [reposition, EP]; exact ⟨hp, EPs_reposition hp items⟩
+    | .map _ items => by simp only [reposition, EP]; exact ⟨hp, EPm_reposition hp items⟩
+    | .dataRef _ _ acc => by simp only [reposition, EP]; exact ⟨hp, EPa_reposition hp acc⟩
+    | .not _ a => by simp only [reposition, EP]; exact ⟨hp, EP_reposition hp a⟩
+    | .neg _ a => by simp only [reposition, EP]; exact ⟨hp, EP_reposition hp a⟩
+    | .bin _ _ a b => by simp only [reposition, EP]; exact ⟨hp, EP_reposition hp a, EP_reposition hp b⟩
+    | .tern _ c a b => by
+      simp only [reposition, EP]; exact ⟨hp, EP_reposition hp c, EP_reposition hp a, EP_reposition hp b⟩
+  theorem EPs_reposition {S : Item → Prop} {p : Nat} (hp : PosOK S p) : ∀ l : ExprList, EPs S (repositionList p l)
+    | .nil => by simp only [repositionList, EPs]
+    | .cons e r => by simp only [repositionList, EPs]; exact ⟨EP_reposition hp e, EPs_reposition hp r⟩
+  theorem EPm_reposition {S : Item → Prop} {p : Nat} (hp : PosOK S p) : ∀ m : MapItems, EPm S (repositionMap p m)
+    | .nil => by simp only [repositionMap, EPm]
+    | .cons _ e r => by simp only [repositionMap, EPm]; exact ⟨EP_reposition hp e, EPm_reposition hp r⟩
+  theorem EPa_reposition {S : Item → Prop} {p : Nat} (hp : PosOK S p) : ∀ a : AccessList, EPa S (repositionAcc p a)
+    | .nil => by simp only [repositionAcc, EPa]
+    | .cons (.key _ _ _) r => by simp only [repositionAcc, EPa]; exact ⟨hp, EPa_reposition hp r⟩
+    | .cons (.index _ _ _) r => by simp only [repositionAcc, EPa]; exact ⟨hp, EPa_reposition hp r⟩
+    | .cons (.expr _ _ e) r => by
+      simp only [repositionAcc, EPa]; exact ⟨hp, EP_reposition hp e, EPa_reposition hp r⟩
+end
+
+/-- the position `errorf` reports is that of a token of the state -/
+theorem errPos_ok {S : Item → Prop} {st : PState} (hpc : st.peekCount ≤ 2) (ht : TokS S st) :
+    ∃ p, errPos st = .ok p ∧ PosOK S p := by
+  obtain ⟨h0, h1, _⟩ := ht
+  unfold errPos
+  by_cases hp0 : st.peekCount = 0
+  · simp [hp0]; exact ⟨_, h0, rfl⟩
+  · by_cases hp1 : st.peekCount = 1
+    · simp [hp1]; exact ⟨_, h0, rfl⟩
+    · have hp2 : st.peekCount = 2 := by omega
+      simp [hp2]; exact ⟨_, h1, rfl⟩
 
 end SoyVerif.Lemmas.ParserSafe
